@@ -69,9 +69,10 @@ TWait ==
 \* silent steps: time passes between logged events
 SilentTick(u) == reg[u] /\ ~due[u] /\ due' = [due EXCEPT ![u] = TRUE] /\ UNCHANGED <<srv, reg, got, tried, last, hist, l, seen, odd>>
 SilentRefresh(u) == Refresh(u) /\ UNCHANGED <<l, seen, odd>>
+SilentWarm(u) == Warm(u) /\ UNCHANGED <<l, seen, odd>>
 
 TNext == TReset \/ TEnd \/ TGetOk \/ TGetErr \/ TRotate \/ TMode \/ TWait
-         \/ \E u \in Uris : SilentTick(u) \/ SilentRefresh(u)
+         \/ \E u \in Uris : SilentTick(u) \/ SilentRefresh(u) \/ SilentWarm(u)
 TSpec == TInit /\ [][TNext]_tvars
 
 \* every state the search reaches satisfies the design invariants of KeySource
